@@ -131,8 +131,12 @@ def set_module(tree):
     refactorings must not blind the rules)"""
     MODULE_HELPERS.clear()
     MODULE_STORES.clear()
+    MODULE_CLASSES.clear()
     if tree is None:
         return
+    for n in ast.walk(tree):
+        if isinstance(n, ast.ClassDef):
+            MODULE_CLASSES[n.name] = n
     # module-level containers: objects that outlive a call
     for n in tree.body:
         tg = n.targets if isinstance(n, ast.Assign) else [n.target] if isinstance(n, ast.AnnAssign) and n.value else []
@@ -157,6 +161,7 @@ def set_module(tree):
 
 
 MODULE_STORES = {}
+MODULE_CLASSES = {}
 _CONTAINER_MAKERS = {'dict', 'list', 'set', 'defaultdict', 'OrderedDict', 'WeakValueDictionary', 'WeakKeyDictionary',
                      'deque', 'Counter', 'ChainMap', 'bytearray', 'local'}
 RECORD_SIGS = {'_Position': ('index', 'line', 'column'), '_PositionInfo': ('start', 'end'),
@@ -521,6 +526,34 @@ class Enumerator:
             return ([p], []) if test.value else ([], [p])
         self.effects(test, p, node)
         term = self.val(test, p.env)
+        return self.branch_term(term, p, node)
+
+    def branch_term(self, term, p, node):
+        """a decision on a value computed earlier (`flag = a and not b` ... `if flag:`) is a decision on its
+        operands, in short-circuit order - as if the expression stood in the test itself"""
+        if isinstance(term, tuple) and term[:2] == ('UOP', 'Not') and len(term) == 3:
+            t, f = self.branch_term(term[2], p, node)
+            return f, t
+        if isinstance(term, tuple) and term[:1] == ('BOOL',) and len(term) > 3 and term[1] in ('And', 'Or'):
+            if term[1] == 'And':
+                trues, falses = [p], []
+                for v in term[2:]:
+                    nt = []
+                    for x in trues:
+                        t, f = self.branch_term(v, x, node)
+                        nt += t
+                        falses += f
+                    trues = nt
+                return trues, falses
+            trues, falses = [], [p]
+            for v in term[2:]:
+                nf = []
+                for x in falses:
+                    t, f = self.branch_term(v, x, node)
+                    trues += t
+                    nf += f
+                falses = nf
+            return trues, falses
         a, b = p.fork(), p.fork()
         a.steps.append(('T', term, True, node))
         b.steps.append(('T', term, False, node))
